@@ -828,8 +828,13 @@ def run(tier, seed):
                 op = want or rng.choice(UNARY)
                 a = rng.choice(qty)
                 p = None
+                if P.pow2 and op in ("sqrt", "cbrt"):
+                    # a root gives the unit a scale that is a power of two only up to rounding; through the
+                    # process-wide lru caches of the unit rules (keyed by Unit.__eq__, i.e. isclose) such a
+                    # unit object can later stand in for the exact one, which would spoil bit-exactness
+                    continue
                 if op == "power":
-                    p = rng.choice([2, 3, -1, -2, 0.5, 1.5, 1])
+                    p = rng.choice([2, 3, -1, -2, 1] if P.pow2 else [2, 3, -1, -2, 0.5, 1.5, 1])
                 r = try_unary(op, P.nodes[a], P.pow2, p)
                 if r is None or not np.all(np.isfinite(np.asarray(r[0], dtype=float))):
                     continue
